@@ -1,12 +1,568 @@
-use crate::util::Report;
-use crate::Ctx;
-use serde_json::Value;
+//! C16 — dense and sparse binary matrices implement the same abstract matrix.
+//! Model-based: a generated operation sequence is interpreted against a plain tri-state bit
+//! array; the next admissible operation is chosen by the model, so every sequence respects the
+//! preconditions asserted in sparse_matrix.rs (three-phase protocol: construction, indexed,
+//! un-indexed).
 
-pub fn run(_ctx: &Ctx, _rep: &mut Report) {
-    eprintln!("not implemented yet");
-    std::process::exit(2);
+use crate::util::{catch, fnv_u64s, run_sharded, Report, Stats};
+use crate::Ctx;
+use proptest::prelude::*;
+use raptorq::verif::verif_kernels as vk;
+use raptorq::verif::{BinaryMatrix, DenseBinaryMatrix, Octet, SparseBinaryMatrix};
+use serde_json::{json, Value};
+use std::collections::BTreeSet;
+
+#[derive(Copy, Clone, Debug, PartialEq, Eq)]
+enum Tri {
+    Zero,
+    One,
+    Undef,
 }
 
-pub fn replay(_sub: &str, _case: &Value) -> Result<(), String> {
-    Err("not implemented".into())
+#[derive(Copy, Clone, Debug, PartialEq, Eq)]
+enum Phase {
+    Construction,
+    Indexed,
+    Unindexed,
+}
+
+#[derive(Debug, Clone)]
+pub struct RawOp {
+    kind: u8,
+    a: u16,
+    b: u16,
+    c: u16,
+    d: u16,
+}
+
+#[derive(Debug, Clone)]
+pub struct Case {
+    width: usize,
+    extra_height: usize,
+    dense_hint: usize,
+    density: u8,
+    fill_seed: u64,
+    ops: Vec<RawOp>,
+}
+
+fn strategy() -> impl Strategy<Value = Case> {
+    let width = prop_oneof![3 => 2usize..=200, 2 => 63usize..=66, 2 => 127usize..=130, 1 => 191usize..=194];
+    (
+        width,
+        0usize..=70,
+        any::<u16>(),
+        0u8..4,
+        any::<u64>(),
+        proptest::collection::vec((any::<u8>(), raw16(), raw16(), raw16(), raw16()).prop_map(|(kind, a, b, c, d)| RawOp { kind, a, b, c, d }), 1..140),
+    )
+        .prop_map(|(width, extra_height, rh, density, fill_seed, ops)| {
+            // trailing dense hint P in 1..=min(width-1, 70), weighted towards word boundaries
+            let pmax = (width - 1).min(70).max(1);
+            let dense_hint = match rh % 6 {
+                0 => 1 + (rh as usize >> 3) % pmax,
+                1 | 2 | 3 => pmax.min(61 + (rh as usize >> 3) % 4),
+                4 => 1,
+                _ => pmax,
+            }
+            .clamp(1, pmax);
+            Case { width, extra_height, dense_hint, density, fill_seed, ops }
+        })
+}
+
+/// raw parameter: uniform, with extra weight on the extremes (first/last row, column, full range)
+fn raw16() -> impl Strategy<Value = u16> {
+    prop_oneof![6 => any::<u16>(), 1 => Just(0u16), 1 => Just(u16::MAX)]
+}
+
+fn pick(raw: u16, n: usize) -> usize {
+    // monotone map of a raw 16-bit value onto 0..n
+    ((raw as usize) * n) >> 16
+}
+
+struct World {
+    model: Vec<Vec<Tri>>,
+    dense: DenseBinaryMatrix,
+    sparse: SparseBinaryMatrix,
+    h: usize,
+    w: usize,
+    num_dense: usize,
+    phase: Phase,
+    /// indexed columns still valid for column queries (by logical position)
+    col_valid: Vec<bool>,
+}
+
+fn oct(v: Tri) -> Octet {
+    if v == Tri::One {
+        Octet::one()
+    } else {
+        Octet::zero()
+    }
+}
+
+impl World {
+    fn first_dense(&self) -> usize {
+        self.w - self.num_dense
+    }
+    fn defined(&self, row: usize, s: usize, e: usize) -> bool {
+        self.model[row][s..e].iter().all(|&c| c != Tri::Undef)
+    }
+    fn ones(&self, row: usize, s: usize, e: usize) -> BTreeSet<usize> {
+        (s..e).filter(|&c| self.model[row][c] == Tri::One).collect()
+    }
+}
+
+#[derive(Default)]
+struct Counters {
+    ops: u64,
+    skipped_undefined: u64,
+    queries: u64,
+    freezes: u32,
+    freeze_cross_word: u32,
+    resizes: u32,
+    row_swaps: u32,
+    col_swap_after_row_swap: u32,
+    col_swaps: u32,
+    pivot_elims: u32,
+    partial_adds: u32,
+    full_adds: u32,
+    col_queries: u32,
+    sub_rows: u32,
+}
+
+fn both<R: PartialEq + std::fmt::Debug>(name: &str, fd: impl FnOnce() -> R, fs: impl FnOnce() -> R) -> Result<(R, R), String> {
+    let d = catch(fd).map_err(|p| format!("{name}: DenseBinaryMatrix panicked on an admissible operation: {p}"))?;
+    let s = catch(fs).map_err(|p| format!("{name}: SparseBinaryMatrix panicked on an admissible operation: {p}"))?;
+    Ok((d, s))
+}
+
+fn unpack(v: &raptorq::verif::BinaryOctetVec) -> Vec<u8> {
+    // harness-side unpacking from the documented layout (not the crate's unpacker)
+    let (words, len) = vk::raw(v);
+    let padding = (64 - len % 64) % 64;
+    (0..len).map(|k| ((words[(padding + k) / 64] >> ((padding + k) % 64)) & 1) as u8).collect()
+}
+
+fn check(c: &Case, st: &mut Stats) -> Result<(), String> {
+    let w = c.width;
+    let h = w + c.extra_height;
+    let mut rng = crate::util::SplitMix::new(c.fill_seed);
+    let mut world = World {
+        model: vec![vec![Tri::Zero; w]; h],
+        dense: DenseBinaryMatrix::new(h, w, c.dense_hint),
+        sparse: SparseBinaryMatrix::new(h, w, c.dense_hint),
+        h,
+        w,
+        num_dense: c.dense_hint,
+        phase: Phase::Construction,
+        col_valid: vec![true; w],
+    };
+    // initial fill through `set` with a generated density
+    let per_row = match c.density {
+        0 => 1,
+        1 => 3,
+        2 => (w / 8).max(2),
+        _ => (w / 2).max(2),
+    };
+    for r in 0..h {
+        for _ in 0..per_row {
+            let col = rng.below(w as u64) as usize;
+            let v = if rng.below(8) == 0 { Tri::Zero } else { Tri::One };
+            world.model[r][col] = v;
+            world.dense.set(r, col, oct(v));
+            world.sparse.set(r, col, oct(v));
+        }
+    }
+    let mut k = Counters::default();
+    let mut row_swapped = false;
+    for (n, op) in c.ops.iter().enumerate() {
+        k.ops += 1;
+        let (h, w) = (world.h, world.w);
+        let fd = world.first_dense();
+        let sparse_cols = fd; // columns 0..fd are in the sparse part
+        // --- choose an admissible operation from the raw descriptor --------------------------
+        let kind = op.kind % 20;
+        let name: String;
+        match kind {
+            // phase transitions
+            // (the column index builder asserts that the sparse part holds at least one entry)
+            0 if world.phase == Phase::Construction && (0..h).any(|r| !world.ones(r, 0, fd).is_empty()) => {
+                name = format!("op {n}: enable_column_access_acceleration");
+                both(&name, || world.dense.enable_column_access_acceleration(), || world.sparse.enable_column_access_acceleration())?;
+                world.phase = Phase::Indexed;
+                world.col_valid = vec![true; w];
+            }
+            0 | 1 if world.phase == Phase::Indexed && op.a % 4 == 0 => {
+                name = format!("op {n}: disable_column_access_acceleration");
+                both(&name, || world.dense.disable_column_access_acceleration(), || world.sparse.disable_column_access_acceleration())?;
+                world.phase = Phase::Unindexed;
+            }
+            // set
+            2 | 3 => {
+                let row = pick(op.a, h);
+                // in the indexed phase only the dense part may be written
+                let col = if world.phase == Phase::Indexed { fd + pick(op.b, world.num_dense) } else { pick(op.b, w) };
+                let v = if op.c % 3 == 0 { Tri::Zero } else { Tri::One };
+                name = format!("op {n}: set({row},{col},{v:?})");
+                both(&name, || world.dense.set(row, col, oct(v)), || world.sparse.set(row, col, oct(v)))?;
+                world.model[row][col] = v;
+            }
+            // swap rows
+            4 | 5 => {
+                let (i, j) = (pick(op.a, h), pick(op.b, h));
+                name = format!("op {n}: swap_rows({i},{j})");
+                both(&name, || world.dense.swap_rows(i, j), || world.sparse.swap_rows(i, j))?;
+                world.model.swap(i, j);
+                k.row_swaps += 1;
+                row_swapped = true;
+            }
+            // swap columns within the sparse part
+            6 | 7 if sparse_cols >= 2 => {
+                let (i, j) = (pick(op.a, sparse_cols), pick(op.b, sparse_cols));
+                // largest valid start_row_hint <= requested: all earlier rows identical & defined
+                let want = if op.c % 2 == 0 { 0 } else { pick(op.d, h + 1) };
+                let mut hint = 0;
+                while hint < want && world.model[hint][i] == world.model[hint][j] && world.model[hint][i] != Tri::Undef {
+                    hint += 1;
+                }
+                name = format!("op {n}: swap_columns({i},{j},{hint})");
+                both(&name, || world.dense.swap_columns(i, j, hint), || world.sparse.swap_columns(i, j, hint))?;
+                for r in 0..h {
+                    world.model[r].swap(i, j);
+                }
+                world.col_valid.swap(i, j);
+                k.col_swaps += 1;
+                if row_swapped {
+                    k.col_swap_after_row_swap += 1;
+                }
+            }
+            // freeze the last sparse column into the dense tail (indexed phase)
+            8 | 9 if world.phase == Phase::Indexed && sparse_cols >= 2 => {
+                let col = fd - 1;
+                name = format!("op {n}: hint_column_dense_and_frozen({col})");
+                both(&name, || world.dense.hint_column_dense_and_frozen(col), || world.sparse.hint_column_dense_and_frozen(col))?;
+                if world.num_dense % 64 == 0 {
+                    k.freeze_cross_word += 1;
+                }
+                world.num_dense += 1;
+                k.freezes += 1;
+            }
+            // row additions
+            10 | 11 | 12 => {
+                let (dest, src) = (pick(op.a, h), pick(op.b, h));
+                if dest == src {
+                    continue;
+                }
+                if world.phase == Phase::Indexed {
+                    // pivot elimination (start_col 0): src has a single one in the sparse part,
+                    // everything relevant defined, dest has that column set
+                    // look for an admissible pivot pair starting from the generated picks
+                    let (mut dest, mut src) = (dest, src);
+                    if op.c % 2 == 0 {
+                        'search: for ds in 0..h {
+                            let s2 = (src + ds) % h;
+                            if !world.defined(s2, 0, fd) {
+                                continue;
+                            }
+                            let o = world.ones(s2, 0, fd);
+                            if o.len() != 1 {
+                                continue;
+                            }
+                            let pc = *o.iter().next().unwrap();
+                            for dd in 0..h {
+                                let d2 = (dest + dd) % h;
+                                if d2 != s2 && world.model[d2][pc] == Tri::One {
+                                    dest = d2;
+                                    src = s2;
+                                    break 'search;
+                                }
+                            }
+                        }
+                    }
+                    let src_ones = world.ones(src, 0, fd);
+                    let pivot_ok = op.c % 2 == 0
+                        && dest != src
+                        && world.defined(src, 0, fd)
+                        && src_ones.len() == 1
+                        && world.model[dest][*src_ones.iter().next().unwrap()] == Tri::One;
+                    if pivot_ok {
+                        let pc = *src_ones.iter().next().unwrap();
+                        name = format!("op {n}: add_assign_rows({dest},{src},0) [pivot elimination of column {pc}]");
+                        both(&name, || world.dense.add_assign_rows(dest, src, 0), || world.sparse.add_assign_rows(dest, src, 0))?;
+                        world.model[dest][pc] = Tri::Zero;
+                        for cc in fd..w {
+                            world.model[dest][cc] = xor(world.model[dest][cc], world.model[src][cc]);
+                        }
+                        world.col_valid[pc] = false;
+                        k.pivot_elims += 1;
+                    } else {
+                        name = format!("op {n}: add_assign_rows({dest},{src},{fd}) [dense part only]");
+                        both(&name, || world.dense.add_assign_rows(dest, src, fd), || world.sparse.add_assign_rows(dest, src, fd))?;
+                        partial_add(&mut world, dest, src, fd);
+                        k.partial_adds += 1;
+                    }
+                } else if op.c % 3 == 0 && world.num_dense > 0 {
+                    name = format!("op {n}: add_assign_rows({dest},{src},{fd}) [dense part only]");
+                    both(&name, || world.dense.add_assign_rows(dest, src, fd), || world.sparse.add_assign_rows(dest, src, fd))?;
+                    partial_add(&mut world, dest, src, fd);
+                    k.partial_adds += 1;
+                } else {
+                    name = format!("op {n}: add_assign_rows({dest},{src},0)");
+                    both(&name, || world.dense.add_assign_rows(dest, src, 0), || world.sparse.add_assign_rows(dest, src, 0))?;
+                    for cc in 0..w {
+                        world.model[dest][cc] = xor(world.model[dest][cc], world.model[src][cc]);
+                    }
+                    k.full_adds += 1;
+                }
+            }
+            // resize (un-indexed phase): shrink height; keep width or drop at least the dense tail
+            13 if world.phase == Phase::Unindexed => {
+                let new_w = if op.a % 2 == 0 || fd < 2 {
+                    w
+                } else if op.d % 3 == 0 && fd >= 64 {
+                    // exactly a multiple of the word size
+                    64 * (1 + pick(op.b, fd / 64))
+                } else {
+                    1 + pick(op.b, fd)
+                };
+                let min_h = new_w; // keep height >= width
+                let new_h = min_h + pick(op.c, h - min_h + 1);
+                name = format!("op {n}: resize({new_h},{new_w})");
+                both(&name, || world.dense.resize(new_h, new_w), || world.sparse.resize(new_h, new_w))?;
+                world.model.truncate(new_h);
+                for r in world.model.iter_mut() {
+                    r.truncate(new_w);
+                }
+                world.h = new_h;
+                if new_w != w {
+                    world.num_dense = 0;
+                }
+                world.w = new_w;
+                world.col_valid.truncate(new_w);
+                k.resizes += 1;
+            }
+            // --- queries ---------------------------------------------------------------------
+            // count_ones / row iteration over the sparse part
+            14 | 15 if sparse_cols >= 1 => {
+                let row = pick(op.a, h);
+                let s = pick(op.b, sparse_cols + 1);
+                let e = s + pick(op.c, sparse_cols - s + 1);
+                k.queries += 1;
+                if !world.defined(row, s, e) {
+                    k.skipped_undefined += 1;
+                    continue;
+                }
+                let want = world.ones(row, s, e);
+                if kind == 14 {
+                    name = format!("op {n}: count_ones({row},{s},{e})");
+                    let (d, sp) = both(&name, || world.dense.count_ones(row, s, e), || world.sparse.count_ones(row, s, e))?;
+                    if d != want.len() || sp != want.len() {
+                        return Err(format!("{name}: dense {d}, sparse {sp}, model {}", want.len()));
+                    }
+                } else {
+                    name = format!("op {n}: get_row_iter({row},{s},{e})");
+                    let (d, sp) = both(
+                        &name,
+                        || world.dense.get_row_iter(row, s, e).filter(|(_, v)| *v == Octet::one()).map(|(cidx, _)| cidx).collect::<BTreeSet<usize>>(),
+                        || world.sparse.get_row_iter(row, s, e).filter(|(_, v)| *v == Octet::one()).map(|(cidx, _)| cidx).collect::<BTreeSet<usize>>(),
+                    )?;
+                    if d != want || sp != want {
+                        return Err(format!("{name}: ones differ: dense {d:?}, sparse {sp:?}, model {want:?}"));
+                    }
+                    // the cloned iterator must agree as well
+                    let (d2, s2) = both(
+                        &name,
+                        || world.dense.get_row_iter(row, s, e).clone().filter(|(_, v)| *v == Octet::one()).map(|(cidx, _)| cidx).collect::<BTreeSet<usize>>(),
+                        || world.sparse.get_row_iter(row, s, e).clone().filter(|(_, v)| *v == Octet::one()).map(|(cidx, _)| cidx).collect::<BTreeSet<usize>>(),
+                    )?;
+                    if d2 != want || s2 != want {
+                        return Err(format!("{name}: cloned iterator differs: dense {d2:?}, sparse {s2:?}, model {want:?}"));
+                    }
+                }
+            }
+            // ones in a still-valid indexed column
+            16 if world.phase == Phase::Indexed && sparse_cols >= 1 => {
+                let col = pick(op.a, sparse_cols);
+                let sr = pick(op.b, h + 1);
+                let er = sr + pick(op.c, h - sr + 1);
+                k.queries += 1;
+                if !world.col_valid[col] || (sr..er).any(|r| world.model[r][col] == Tri::Undef) {
+                    k.skipped_undefined += 1;
+                    continue;
+                }
+                name = format!("op {n}: get_ones_in_column({col},{sr},{er})");
+                let want: BTreeSet<u32> = (sr..er).filter(|&r| world.model[r][col] == Tri::One).map(|r| r as u32).collect();
+                let (d, sp) = both(
+                    &name,
+                    || world.dense.get_ones_in_column(col, sr, er).into_iter().collect::<BTreeSet<u32>>(),
+                    || world.sparse.get_ones_in_column(col, sr, er).into_iter().collect::<BTreeSet<u32>>(),
+                )?;
+                if d != want || sp != want {
+                    return Err(format!("{name}: dense {d:?}, sparse {sp:?}, model {want:?}"));
+                }
+                k.col_queries += 1;
+            }
+            // packed sub-row / non-zero columns at the first dense column
+            17 | 18 if world.num_dense >= 1 => {
+                let row = pick(op.a, h);
+                k.queries += 1;
+                // a frozen column may carry undefined cells from an earlier partial addition
+                if !world.defined(row, fd, w) {
+                    k.skipped_undefined += 1;
+                    continue;
+                }
+                let want: Vec<u8> = (fd..w).map(|cc| (world.model[row][cc] == Tri::One) as u8).collect();
+                if kind == 17 {
+                    name = format!("op {n}: get_sub_row_as_octets({row},{fd})");
+                    let (d, sp) = both(&name, || unpack(&world.dense.get_sub_row_as_octets(row, fd)), || unpack(&world.sparse.get_sub_row_as_octets(row, fd)))?;
+                    if d != want || sp != want {
+                        return Err(format!("{name}: dense {d:?}, sparse {sp:?}, model {want:?}"));
+                    }
+                    k.sub_rows += 1;
+                } else {
+                    name = format!("op {n}: query_non_zero_columns({row},{fd})");
+                    let want: BTreeSet<usize> = (fd..w).filter(|&cc| world.model[row][cc] == Tri::One).collect();
+                    let (d, sp) = both(
+                        &name,
+                        || world.dense.query_non_zero_columns(row, fd).into_iter().collect::<BTreeSet<usize>>(),
+                        || world.sparse.query_non_zero_columns(row, fd).into_iter().collect::<BTreeSet<usize>>(),
+                    )?;
+                    if d != want || sp != want {
+                        return Err(format!("{name}: dense {d:?}, sparse {sp:?}, model {want:?}"));
+                    }
+                }
+            }
+            // get anywhere (default)
+            _ => {
+                let (row, col) = (pick(op.a, h), pick(op.b, w));
+                k.queries += 1;
+                if world.model[row][col] == Tri::Undef {
+                    k.skipped_undefined += 1;
+                    continue;
+                }
+                name = format!("op {n}: get({row},{col})");
+                let (d, sp) = both(&name, || world.dense.get(row, col), || world.sparse.get(row, col))?;
+                let want = oct(world.model[row][col]);
+                if d != want || sp != want {
+                    return Err(format!("{name}: dense {d:?}, sparse {sp:?}, model {want:?}"));
+                }
+            }
+        }
+        if world.dense.height() != world.h || world.sparse.height() != world.h || world.dense.width() != world.w || world.sparse.width() != world.w {
+            return Err(format!("after op {n}: dimensions differ from the model ({}x{})", world.h, world.w));
+        }
+    }
+    // final full scan of every defined cell
+    for r in 0..world.h {
+        for cc in 0..world.w {
+            if world.model[r][cc] == Tri::Undef {
+                continue;
+            }
+            let want = oct(world.model[r][cc]);
+            let (d, sp) = both("final scan", || world.dense.get(r, cc), || world.sparse.get(r, cc))?;
+            if d != want || sp != want {
+                return Err(format!("final scan: cell ({r},{cc}): dense {d:?}, sparse {sp:?}, model {want:?} (phase {:?}, {} dense columns)", world.phase, world.num_dense));
+            }
+        }
+    }
+    st.evals(k.ops);
+    st.class_n("op: freeze", k.freezes as u64);
+    st.class_n("op: freeze crossing a 64-column boundary of the dense tail", k.freeze_cross_word as u64);
+    st.class_n("op: resize", k.resizes as u64);
+    st.class_n("op: swap_rows", k.row_swaps as u64);
+    st.class_n("op: swap_columns", k.col_swaps as u64);
+    st.class_n("op: pivot elimination (indexed add, start_col 0)", k.pivot_elims as u64);
+    st.class_n("op: partial add (start_col = first dense column)", k.partial_adds as u64);
+    st.class_n("op: full add", k.full_adds as u64);
+    st.class_n("query: column ones", k.col_queries as u64);
+    st.class_n("query: packed sub-row", k.sub_rows as u64);
+    st.class_n("queries", k.queries);
+    st.class_n("queries skipped as undefined", k.skipped_undefined);
+    st.class(match world.phase {
+        Phase::Construction => "ended in construction phase",
+        Phase::Indexed => "ended in indexed phase",
+        Phase::Unindexed => "ended in un-indexed phase",
+    });
+    if k.freeze_cross_word >= 1 && k.resizes >= 1 && k.col_swap_after_row_swap >= 1 {
+        let sig: Vec<u64> = c.ops.iter().map(|o| (o.kind as u64) << 48 | (o.a as u64) << 32 | (o.b as u64) << 16 | o.c as u64).collect();
+        st.nt(fnv_u64s(&[c.width as u64, c.extra_height as u64, c.dense_hint as u64, c.fill_seed, fnv_u64s(&sig)]));
+    }
+    st.sample(|| json!({"width": c.width, "height": c.width + c.extra_height, "dense_hint": c.dense_hint, "ops": c.ops.len(), "freezes": k.freezes, "resizes": k.resizes, "final_phase": format!("{:?}", world.phase)}));
+    Ok(())
+}
+
+fn xor(a: Tri, b: Tri) -> Tri {
+    match (a, b) {
+        (Tri::Undef, _) | (_, Tri::Undef) => Tri::Undef,
+        (x, y) => {
+            if x == y {
+                Tri::Zero
+            } else {
+                Tri::One
+            }
+        }
+    }
+}
+
+/// add_assign_rows(dest, src, start_col > 0): the dense part is added; cells of dest left of
+/// start_col become undefined where src is one or undefined (the interface's own contract, in
+/// the form both callers and both implementations rely on).
+fn partial_add(world: &mut World, dest: usize, src: usize, start: usize) {
+    for cc in 0..start {
+        if world.model[src][cc] != Tri::Zero {
+            world.model[dest][cc] = Tri::Undef;
+        }
+    }
+    for cc in start..world.w {
+        world.model[dest][cc] = xor(world.model[dest][cc], world.model[src][cc]);
+    }
+}
+
+fn to_json(c: &Case) -> Value {
+    json!({"width": c.width, "extra_height": c.extra_height, "dense_hint": c.dense_hint, "density": c.density, "fill_seed": c.fill_seed,
+           "ops": c.ops.iter().map(|o| json!([o.kind, o.a, o.b, o.c, o.d])).collect::<Vec<_>>()})
+}
+
+fn from_json(v: &Value) -> Case {
+    Case {
+        width: v["width"].as_u64().unwrap() as usize,
+        extra_height: v["extra_height"].as_u64().unwrap() as usize,
+        dense_hint: v["dense_hint"].as_u64().unwrap() as usize,
+        density: v["density"].as_u64().unwrap() as u8,
+        fill_seed: v["fill_seed"].as_u64().unwrap(),
+        ops: v["ops"]
+            .as_array()
+            .unwrap()
+            .iter()
+            .map(|o| RawOp { kind: o[0].as_u64().unwrap() as u8, a: o[1].as_u64().unwrap() as u16, b: o[2].as_u64().unwrap() as u16, c: o[3].as_u64().unwrap() as u16, d: o[4].as_u64().unwrap() as u16 })
+            .collect(),
+    }
+}
+
+fn signature(_: &Case, msg: &str) -> String {
+    let which = if msg.contains("DenseBinaryMatrix panicked") {
+        "dense-panic"
+    } else if msg.contains("SparseBinaryMatrix panicked") {
+        "sparse-panic"
+    } else {
+        "answer"
+    };
+    let opname = msg.split(": ").nth(1).unwrap_or("").split('(').next().unwrap_or("").trim().to_string();
+    let opname = if msg.starts_with("final scan") { "final-scan".to_string() } else { opname };
+    let mut sig = format!("matrix:{which}:{opname}");
+    if which == "dense-panic" && opname == "get_row_iter" {
+        // distinguish the known slice-end case: last row, end column = width, width % 64 == 0
+        sig.push_str(if msg.contains("range end index") { ":slice-end" } else { "" });
+    }
+    sig
+}
+
+pub fn run(ctx: &Ctx, rep: &mut Report) {
+    rep.rule = "model-based: generated shape (width 2..=200 weighted to 63..66, 127..130, 191..194; height = width + 0..=70; trailing dense hint 1..=min(width-1,70) weighted to word boundaries; initial fill through set with generated density) and 1..90 raw operation descriptors interpreted by the model into admissible operations of a three-phase protocol mirroring every precondition asserted in sparse_matrix.rs: construction (set, swap rows/columns, additions, queries), indexed (enable; swap rows; swap columns within the sparse part with a valid start-row hint; freeze the last sparse column; pivot elimination add(dest,src,0) when src has a single one in the sparse part and dest has it set; add(dest,src,first dense column); set in the dense part; count/iterate rows over the sparse part; ones of still-valid columns; packed sub-row and non-zero columns at the first dense column; get), un-indexed (disable; resize keeping width or dropping at least the dense tail, height >= width; unrestricted additions; set; queries). Oracle: a Vec<Vec<Tri>> with an undefined state (cells of dest left of start_col where src is non-zero after a partial addition); every query of BOTH implementations is compared with the model on defined cells, packed rows are unpacked by the harness, and all defined cells are scanned at the end. Non-trivial = sequence with a freeze that crosses a 64-column boundary of the dense tail, a resize, and a column swap after a row swap; distinct by (shape, op sequence).".into();
+    rep.assumptions.push("trailing dense hint >= 1 as in every caller (the solver passes P >= 10)".into());
+    let n = ctx.tier.pick(20_000u64, 500_000);
+    rep.absorb("model", run_sharded("C16", "model", ctx.seed, n, 32, strategy, check, to_json, signature));
+}
+
+pub fn replay(_sub: &str, case: &Value) -> Result<(), String> {
+    check(&from_json(case), &mut Stats::new())
 }
